@@ -1,32 +1,42 @@
 ----------------------------- MODULE LockOrder -----------------------------
 (***************************************************************************)
-(* The table-lock discipline of db.WriteTxn for ANY number of tables and   *)
-(* writers (C10 beyond the bounds TLC explores): every writer takes the    *)
-(* mutexes of its tables in ascending table order and releases them all at *)
-(* once.  Proved with TLAPS (no bound on Tables, Actors or the requested   *)
-(* sets):                                                                  *)
-(*   Inv      a mutex held by h lies strictly below the next mutex h will  *)
-(*            ask for (or h has all it wants);                             *)
-(*   NoCycle  hence "a waits for a mutex held by h" strictly increases     *)
-(*            the pair's position: the wait-for relation has no cycle, so  *)
-(*            some writer among those that are not finished can always     *)
-(*            move (the one whose next mutex is the largest among the      *)
-(*            waiting ones is waiting for a holder that is not waiting).   *)
-(* DBImpl.tla checks the same protocol in full detail (root mutex,         *)
-(* registrar, collector) for small constants with TLC.                     *)
+(* The lock discipline of db.WriteTxn / Commit / Abort / registerTable for *)
+(* ANY number of tables, writers and registrations (C10 beyond the bounds  *)
+(* TLC explores).  Every writer takes the mutexes of its tables in         *)
+(* ascending table order, works, takes the root mutex (while still holding *)
+(* its tables), publishes, releases the root mutex and then all table      *)
+(* mutexes at once; Abort releases the tables without touching the root    *)
+(* mutex; a registration takes only the root mutex and afterwards behaves  *)
+(* like a writer.  Proved with TLAPS, no bound on Tables, Actors, Req:     *)
+(*   Inv       what a writer holds lies strictly below everything it still *)
+(*             needs; the root mutex is held exactly by the actor inside   *)
+(*             the root section; a finished actor holds nothing;           *)
+(*   NoCycle   along "a waits for a table mutex held by h" the next table  *)
+(*             strictly increases, and                                      *)
+(*   RootHolderMoves  the holder of the root mutex is inside a root        *)
+(*             section, whose exit (RootUnlock / RegUnlock) has no other   *)
+(*             precondition: it waits for nothing.                         *)
+(* Hence every chain of waiting actors is finite and ends in an actor that *)
+(* can move: no deadlock, whatever the table sets and their order of       *)
+(* request.  DBImpl.tla checks the same protocol in full detail (what is   *)
+(* published, the collector) for small constants with TLC.                 *)
 (***************************************************************************)
 EXTENDS Naturals, TLAPS
 
 CONSTANTS Tables,      \* a set of natural numbers (positions of the tables)
           Actors,
-          Req          \* Req[a] \subseteq Tables: the tables writer a asks for
+          Registrars,  \* the actors that first register a table
+          Req          \* Req[a] \subseteq Tables: the tables actor a writes
 ASSUME TablesNat == Tables \subseteq Nat
 ASSUME ReqOK == Req \in [Actors -> SUBSET Tables]
+ASSUME RegOK == Registrars \subseteq Actors
 
 VARIABLES lk,          \* lk[t]: holder of the mutex of t, or NoOne
-          st           \* st[a] \in {"locking", "working", "done"}
+          rootmu,      \* holder of the root mutex, or NoOne
+          st           \* st[a]: "reg" | "reginroot" | "locking" | "working" | "inroot" | "published" | "done"
 NoOne == CHOOSE x : x \notin Actors
-vars == << lk, st >>
+vars == << lk, rootmu, st >>
+States == {"reg", "reginroot", "locking", "working", "inroot", "published", "done"}
 
 Held(a) == { t \in Tables : lk[t] = a }
 Rest(a) == Req[a] \ Held(a)
@@ -34,47 +44,66 @@ Rest(a) == Req[a] \ Held(a)
 IsNext(a, t) == t \in Rest(a) /\ \A u \in Rest(a) : t <= u
 
 Init == /\ lk = [t \in Tables |-> NoOne]
-        /\ st = [a \in Actors |-> "locking"]
+        /\ rootmu = NoOne
+        /\ st = [a \in Actors |-> IF a \in Registrars THEN "reg" ELSE "locking"]
 
+RegLock(a) ==
+    /\ st[a] = "reg" /\ rootmu = NoOne
+    /\ rootmu' = a /\ st' = [st EXCEPT ![a] = "reginroot"]
+    /\ UNCHANGED lk
+RegUnlock(a) ==
+    /\ st[a] = "reginroot"
+    /\ rootmu' = NoOne /\ st' = [st EXCEPT ![a] = "locking"]
+    /\ UNCHANGED lk
 Lock(a, t) ==
     /\ st[a] = "locking" /\ IsNext(a, t) /\ lk[t] = NoOne
     /\ lk' = [lk EXCEPT ![t] = a]
-    /\ UNCHANGED st
-
+    /\ UNCHANGED << rootmu, st >>
 Locked(a) ==
     /\ st[a] = "locking" /\ Rest(a) = {}
     /\ st' = [st EXCEPT ![a] = "working"]
+    /\ UNCHANGED << lk, rootmu >>
+RootLock(a) ==     \* Commit: the root mutex is taken while the table mutexes are held
+    /\ st[a] = "working" /\ rootmu = NoOne
+    /\ rootmu' = a /\ st' = [st EXCEPT ![a] = "inroot"]
     /\ UNCHANGED lk
-
-Release(a) ==      \* Commit or Abort: all mutexes at once
-    /\ st[a] = "working"
+RootUnlock(a) ==
+    /\ st[a] = "inroot"
+    /\ rootmu' = NoOne /\ st' = [st EXCEPT ![a] = "published"]
+    /\ UNCHANGED lk
+Release(a) ==      \* end of Commit, or Abort: all table mutexes at once
+    /\ st[a] \in {"published", "working"}
     /\ lk' = [t \in Tables |-> IF lk[t] = a THEN NoOne ELSE lk[t]]
     /\ st' = [st EXCEPT ![a] = "done"]
+    /\ UNCHANGED rootmu
 
-Next == \E a \in Actors : (\E t \in Tables : Lock(a, t)) \/ Locked(a) \/ Release(a)
+Next == \E a \in Actors : \/ RegLock(a) \/ RegUnlock(a) \/ (\E t \in Tables : Lock(a, t)) \/ Locked(a)
+                          \/ RootLock(a) \/ RootUnlock(a) \/ Release(a)
 Spec == Init /\ [][Next]_vars
 
 TypeOK == /\ lk \in [Tables -> Actors \cup {NoOne}]
-          /\ st \in [Actors -> {"locking", "working", "done"}]
+          /\ rootmu \in Actors \cup {NoOne}
+          /\ st \in [Actors -> States]
 
-\* what a holds are tables it asked for, all below everything it still needs; a finished writer holds nothing
+InRoot(a) == st[a] \in {"inroot", "reginroot"}
+
 Inv == /\ TypeOK
        /\ \A a \in Actors : Held(a) \subseteq Req[a]
        /\ \A a \in Actors : \A t \in Held(a) : \A u \in Rest(a) : t < u
-       /\ \A a \in Actors : st[a] = "done" => Held(a) = {}
+       /\ \A a \in Actors : st[a] \in {"done", "reg", "reginroot"} => Held(a) = {}
+       /\ \A a \in Actors : InRoot(a) <=> rootmu = a
 
-\* a waits for h: a's next mutex is held by h
+\* a waits for h: a's next table mutex is held by h
 WaitsFor(a, h) == st[a] = "locking" /\ \E t \in Tables : IsNext(a, t) /\ lk[t] = h /\ h \in Actors
-\* along a wait-for edge the next mutex strictly increases (or the holder needs nothing more)
+\* along a wait-for edge the next table mutex strictly increases
 NoCycle == \A a, h \in Actors : WaitsFor(a, h) =>
               \A t, u \in Tables : IsNext(a, t) /\ IsNext(h, u) => t < u
-
 LEMMA NoOneNotActor == NoOne \notin Actors
   BY NoSetContainsEverything DEF NoOne
 
 THEOREM InvHolds == Spec => []Inv
 <1>1. Init => Inv
-  BY NoOneNotActor, ReqOK DEF Init, Inv, TypeOK, Held, Rest
+  BY NoOneNotActor, ReqOK DEF Init, Inv, TypeOK, Held, Rest, InRoot, States
 <1>2. Inv /\ [Next]_vars => Inv'
   <2> SUFFICES ASSUME Inv, [Next]_vars PROVE Inv'
     OBVIOUS
@@ -96,14 +125,16 @@ THEOREM InvHolds == Spec => []Inv
           BY <2>1, TablesNat, ReqOK DEF Lock, IsNext, Rest
         <5> QED BY <4>2, <3>2, <5>1, <5>2 DEF Inv
       <4> QED BY <4>1, <4>2
-    <3>5. \A b \in Actors : st'[b] = "done" => Held(b)' = {}
+    <3>5. \A b \in Actors : st'[b] \in {"done", "reg", "reginroot"} => Held(b)' = {}
       BY <2>1, <3>2 DEF Lock, Inv
-    <3> QED BY <3>1, <3>3, <3>4, <3>5 DEF Inv
+    <3>6. \A b \in Actors : InRoot(b)' <=> rootmu' = b
+      BY <2>1 DEF Lock, Inv, InRoot
+    <3> QED BY <3>1, <3>3, <3>4, <3>5, <3>6 DEF Inv
   <2>2. ASSUME NEW a \in Actors, Locked(a) PROVE Inv'
-    BY <2>2 DEF Locked, Inv, TypeOK, Held, Rest
+    BY <2>2 DEF Locked, Inv, TypeOK, Held, Rest, InRoot, States
   <2>3. ASSUME NEW a \in Actors, Release(a) PROVE Inv'
     <3>1. TypeOK'
-      BY <2>3 DEF Release, Inv, TypeOK
+      BY <2>3 DEF Release, Inv, TypeOK, States
     <3>2. \A b \in Actors : Held(b)' = IF b = a THEN {} ELSE Held(b)
       BY <2>3, NoOneNotActor DEF Release, Held, Inv, TypeOK
     <3>3. \A b \in Actors : b # a => Rest(b)' = Rest(b)
@@ -112,7 +143,7 @@ THEOREM InvHolds == Spec => []Inv
       BY <3>2 DEF Inv
     <3>5. \A b \in Actors : \A x \in Held(b)' : \A u \in Rest(b)' : x < u
       BY <3>2, <3>3 DEF Inv
-    <3>6. \A b \in Actors : st'[b] = "done" => Held(b)' = {}
+    <3>6. \A b \in Actors : st'[b] \in {"done", "reg", "reginroot"} => Held(b)' = {}
       <4> TAKE b \in Actors
       <4>1. CASE b = a
         BY <4>1, <3>2
@@ -121,10 +152,39 @@ THEOREM InvHolds == Spec => []Inv
           BY <2>3, <4>2 DEF Release, Inv, TypeOK
         <5> QED BY <4>2, <3>2, <5>1 DEF Inv
       <4> QED BY <4>1, <4>2
-    <3> QED BY <3>1, <3>4, <3>5, <3>6 DEF Inv
-  <2>4. CASE UNCHANGED vars
-    BY <2>4 DEF vars, Inv, TypeOK, Held, Rest
-  <2> QED BY <2>1, <2>2, <2>3, <2>4 DEF Next
+    <3>7. \A b \in Actors : InRoot(b)' <=> rootmu' = b
+      <4> TAKE b \in Actors
+      <4>1. CASE b = a
+        BY <4>1, <2>3 DEF Release, Inv, InRoot, TypeOK
+      <4>2. CASE b # a
+        BY <4>2, <2>3 DEF Release, Inv, InRoot, TypeOK
+      <4> QED BY <4>1, <4>2
+    <3> QED BY <3>1, <3>4, <3>5, <3>6, <3>7 DEF Inv
+  <2>4. ASSUME NEW a \in Actors, RegLock(a) \/ RegUnlock(a) \/ RootLock(a) \/ RootUnlock(a) PROVE Inv'
+    <3>1. UNCHANGED lk
+      BY <2>4 DEF RegLock, RegUnlock, RootLock, RootUnlock
+    <3>2. TypeOK'
+      BY <2>4 DEF RegLock, RegUnlock, RootLock, RootUnlock, Inv, TypeOK, States
+    <3>3. \A b \in Actors : Held(b)' = Held(b) /\ Rest(b)' = Rest(b)
+      BY <3>1 DEF Held, Rest
+    <3>4. \A b \in Actors : st'[b] \in {"done", "reg", "reginroot"} => Held(b)' = {}
+      <4> TAKE b \in Actors
+      <4>1. CASE b = a
+        BY <4>1, <2>4, <3>3 DEF RegLock, RegUnlock, RootLock, RootUnlock, Inv, TypeOK
+      <4>2. CASE b # a
+        BY <4>2, <2>4, <3>3 DEF RegLock, RegUnlock, RootLock, RootUnlock, Inv, TypeOK
+      <4> QED BY <4>1, <4>2
+    <3>5. \A b \in Actors : InRoot(b)' <=> rootmu' = b
+      <4> TAKE b \in Actors
+      <4>1. CASE b = a
+        BY <4>1, <2>4, NoOneNotActor DEF RegLock, RegUnlock, RootLock, RootUnlock, Inv, TypeOK, InRoot
+      <4>2. CASE b # a
+        BY <4>2, <2>4, NoOneNotActor DEF RegLock, RegUnlock, RootLock, RootUnlock, Inv, TypeOK, InRoot
+      <4> QED BY <4>1, <4>2
+    <3> QED BY <3>2, <3>3, <3>4, <3>5 DEF Inv
+  <2>5. CASE UNCHANGED vars
+    BY <2>5 DEF vars, Inv, TypeOK, Held, Rest, InRoot
+  <2> QED BY <2>1, <2>2, <2>3, <2>4, <2>5 DEF Next
 <1> QED BY <1>1, <1>2, PTL DEF Spec
 
 THEOREM NoCycleHolds == Inv => NoCycle
@@ -141,4 +201,8 @@ THEOREM NoCycleHolds == Inv => NoCycle
   <1>4. u \in Rest(h)
     BY DEF IsNext
   <1> QED BY <1>3, <1>4 DEF Inv
+
+\* the holder of the root mutex is inside a root section, whose exit has no precondition but that state
+THEOREM RootHolderMoves == Inv => \A h \in Actors : rootmu = h => st[h] \in {"inroot", "reginroot"}
+  BY DEF Inv, InRoot
 =============================================================================
